@@ -619,6 +619,16 @@ func (e *cenv) unary(x *cUnary) val {
 	return val{}
 }
 
+// boxKeyName: the heap of pointer cells holding values of type t.  One heap per SMT sort,
+// except slices, which get one heap per element type: Go's types keep a *[]string and a
+// *[]byte from aliasing (unsafe conversions of cell pointers are outside the model).
+func (g *fgen) boxKeyName(t types.Type) string {
+	if sl, ok := t.Underlying().(*types.Slice); ok {
+		return "Slice_" + g.elemKeyName(sl.Elem())
+	}
+	return mangle(g.sortOf(t))
+}
+
 // ptrLoc: location a pointer value points to.
 func (g *fgen) ptrLoc(ref string, elem types.Type) *loc {
 	if _, ok := isStructVal(elem); ok {
@@ -628,7 +638,7 @@ func (g *fgen) ptrLoc(ref string, elem types.Type) *loc {
 		// whole array behind a pointer: the array object lives in the element heap
 		return &loc{root: rootElem, rootT: g.elemKeyName(a.Elem()), base: ref, idx: "", typ: elem}
 	}
-	return &loc{root: rootBox, rootT: mangle(g.sortOf(elem)), base: ref, typ: elem}
+	return &loc{root: rootBox, rootT: g.boxKeyName(elem), base: ref, typ: elem}
 }
 
 func isFloatSort(s string) bool { return strings.Contains(s, "FloatingPoint") }
